@@ -4,6 +4,7 @@ import verif as V
 
 PROP = "C12"
 PROPS = "props/C12.v"
+PROPS_B = "props/C12b.v"   # integration with C15: layout pass / raw modes / terminators agree (coq/integ/RenderAgree.v)
 STREAMS = ["strings", "floats", "containers", "run"]
 
 
@@ -73,6 +74,7 @@ def run(tier, seed):
         phases[k] = round(phases.get(k, 0) + time.time() - t0, 1)
         t0 = time.time()
     proved = c.prove(PROPS)
+    proved = c.prove(PROPS_B) and proved
     mark("prove")
     exe_h, hlog = V.build_harness("c12")
     mark("harness-build")
